@@ -51,6 +51,9 @@ CHECKS = {
  "C16": ("Hypothesis-generated (generator, bounded parameter tuple, seed) cases with per-generator validity predicates; exhaustive comparison of the index-to-edge decodings with itertools",
          "Exploration over bounded parameter grids and seeds for 21 generators with a validity predicate per generator (node set, allowed sizes, no repeated edges, p=0/p=1 extremes, counts, degree bounds, closure, exact clique sets), since many outputs are correct for one parameter tuple; the three skip-sampling decodings are enumerated exhaustively for n <= 7, m <= n and block triples <= 4.",
          "Admissibility of parameters read off the docstrings (see evidence assumptions); statistical properties of the random models (edge probabilities) are not tested.", "DESIGN.md#C16"),
+ "C17": ("Hypothesis-generated (seeded function by introspection, arguments, seed, schedule of RNG perturbations) cases; call-twice-and-compare oracle",
+         "Exploration: every public callable with a seed parameter (21 found by introspection; uncovered ones are listed) is called twice with the same arguments and seed while a generated schedule draws from / re-seeds the global Python and NumPy generators, calls the same function with other seeds and calls other seeded functions in between; the two outputs must be identical (ordered network snapshot, exact position arrays, cluster dict).",
+         "Single process, no threads; schedules of at most 8 perturbations are sampled; statistical correctness of the random models is not the property.", "DESIGN.md#C17"),
  "C05": ("Model-based testing: Hypothesis-generated histories applied step by step to xgi and to reference models transcribed from the docstrings (three classes), metamorphic relations for the degree-preserving moves",
          "Exploration by refinement checking against an executable specification: every op of a generated history is applied to the implementation and to the model (parametric in fresh IDs, prefix semantics for bulk calls) and the observable snapshots are compared after every step, including after rejected calls and their exception types.",
          "The models are my transcription of the documentation; inputs the documentation leaves contradictory are excluded by construction and counted (see assumptions in the evidence).", "DESIGN.md#C05"),
